@@ -284,7 +284,7 @@ class Gen:
     def failing_expr(self, i, inbr, stmt_ok, in_def):
         """(op kind, expression text with the marker of frame i, post lines) for an expression-level failing operation"""
         g = lambda least=0: self.gap(inbr, least)
-        ops = ["binop", "binop", "cmp", "divzero", "unary", "index", "index", "attr", "notcallable", "arity", "unpack-comp",
+        ops = ["binop", "binop", "pluschain", "cmp", "divzero", "unary", "index", "index", "attr", "notcallable", "arity", "unpack-comp",
                "unbound-global", "fail", "boom", "builtin", "binop-ns", "unbound-comp"]
         if in_def:
             ops += ["unbound-local", "unbound-local"]
@@ -317,6 +317,18 @@ class Gen:
                 # the real parser records the position of `in` for the two-word operator (convention, see the report)
                 return op, "%s%snot %sin%s%s" % (self.operand([l]), g(1), m, g(1), self.operand([r])), post
             return op, "%s%s%s%s%s%s" % (self.operand([l]), g(1), m, o, g(1), self.operand([r])), post
+        if op == "pluschain":
+            # a chain of '+' is compiled as one n-ary sum with folded literals; each '+' keeps its own position
+            terms, k = self.pick([(["a", "a", "None"], 2), (["a", "NN", "a"], 1), (["\"x\"", "\"y\"", "None"], 2), (["SS", "\"x\"", "\"y\"", "NN"], 3),
+                                  (["None", "\"x\"", "\"y\""], 1), (["[1]", "[2]", "a"], 2), (["(1,)", "(2,)", "(a,)", "a"], 3), (["a", "[1]", "[2]"], 1),
+                                  (["a", "(a + a)", "ZZ", "SS", "SS"], 3), (["\"\u00e9\"", "\"\u4e2d\"", "a", "\"z\""], 2)])
+            if terms[0] in ("[1]", "a") and "[2]" in terms:
+                self.infrag = False
+            m = self.frame(i, name, file)
+            e = terms[0]
+            for n, t in enumerate(terms[1:], 1):
+                e += g(1) + (m if n == k else "") + "+" + g(1) + t
+            return op, e, post
         if op == "unary":
             o, x = self.pick([("-", "none"), ("-", "str"), ("+", "none"), ("+", "str"), ("~", "none"), ("~", "str"), ("-", "tuple")])
             if o == "~":
@@ -630,7 +642,7 @@ def make_case(rnd, cid):
 
 # ------------------------------------------------------------------ observation -> record
 # what each generated failing operation must be reported as (message classes of checks/c01.py)
-OPKINDS = {"binop": {"binop"}, "binop-ns": {"binop"}, "cmp": {"binop"}, "divzero": {"divzero"}, "unary": {"unop"},
+OPKINDS = {"binop": {"binop"}, "pluschain": {"binop"}, "binop-ns": {"binop"}, "cmp": {"binop"}, "divzero": {"divzero"}, "unary": {"unop"},
            "index": {"index-range", "key", "index-type", "unhashable"}, "attr": {"attr"}, "notcallable": {"not-callable"}, "arity": {"args"},
            "recursion": {"recursion"}, "unpack-comp": {"unpack-count", "unpack-noniter"}, "unpack": {"unpack-count", "unpack-noniter"},
            "unpack-for": {"unpack-count", "unpack-noniter"}, "unbound-comp": {"unbound-local"}, "unbound-local": {"unbound-local"},
@@ -819,7 +831,6 @@ def run(ctx):
     feats, ops, depths, maxcol, maxline, builtin_frames = {}, {}, {}, 0, 0, 0
     for c in cases:
         for f in c["features"]:
-            f = f.split(":")[0] if f.startswith("ctx:") and False else f
             feats[f] = feats.get(f, 0) + 1
         ops[c["op"]] = ops.get(c["op"], 0) + 1
         depths[str(c["depth"])] = depths.get(str(c["depth"]), 0) + 1
@@ -841,8 +852,8 @@ def run(ctx):
         "LineTab (the delta encoding) is model-checked as a design; it is not an oracle for the code"]
     return ctx.finish(rule="seeded random call chains of depth 1-8 (def / lambda frames placed at module level, nested, inline or in a loaded module; reached by call or "
                            "sorted/min/max key callbacks; call sites in 0-3 expression contexts incl. list/dict comprehensions and nested clauses, and in if/else/for/while "
-                           "blocks) x 24 failing operation kinds x layouts with column/line distances at, around and far beyond the encoding's saturation bounds (cols to 10^4, "
-                           "line gaps to 10^5, up to 5000 preceding statements/elements); distinct = different (operation, depth, feature set)", exhaustive=False)
+                           "blocks) x %d failing operation kinds x layouts with column/line distances at, around and far beyond the encoding's saturation bounds (cols to 10^4, "
+                           "line gaps to 10^5, up to 5000 preceding statements/elements); distinct = different (operation, depth, feature set)" % len(OPKINDS), exhaustive=False)
 
 
 def replay(ctx, path):
